@@ -1,6 +1,7 @@
 package world
 
 import (
+	e2wtypes "github.com/wealdtech/go-eth2-wallet-types/v2"
 	"encoding/hex"
 	"github.com/attestantio/dirk/services/checker"
 	"crypto/sha256"
@@ -900,6 +901,8 @@ func (r *Runner) runPar(ctx context.Context, st *Stack, b *Base, op Op) {
 		go func() {
 			defer close(arrivalsDone)
 			n := 0
+			var lastW e2wtypes.Wallet
+			var lastA e2wtypes.Account
 			for {
 				select {
 				case <-stopArrivals:
@@ -907,9 +910,22 @@ func (r *Runner) runPar(ctx context.Context, st *Stack, b *Base, op Op) {
 					return
 				default:
 				}
-				if err := r.createAccounts(ctx, b, 1, fmt.Sprintf("arr-%s-%d-%d", op.ID, time.Now().UnixNano()%1000000, n), false); err != nil {
-					r.Log.Emit(Ev{"ev": "Arrivals", "n": n, "err": err.Error()})
-					return
+				// every 400th arrival is a new account created through the process service (key generation, keystore encryption,
+				// store, fetcher registration: some 50 ms); in between the account that has just been created is registered with
+				// the fetcher again and again, exactly as the process service registers it - the registration is what the requests
+				// running beside it meet, and key generation alone offers it twenty times a second
+				if n%400 == 0 {
+					tag := fmt.Sprintf("arr-%s-%d-%d", op.ID, time.Now().UnixNano()%1000000, n)
+					if err := r.createAccounts(ctx, b, 1, tag, false); err != nil {
+						r.Log.Emit(Ev{"ev": "Arrivals", "n": n, "err": err.Error()})
+						return
+					}
+					lastW, lastA, _ = b.RawFetch.FetchAccount(ctx, fmt.Sprintf("W1/rt-%s-0", tag))
+				} else if lastW != nil && lastA != nil {
+					_ = b.Fetcher.AddAccount(ctx, lastW, lastA)
+					if n%8 == 0 {
+						time.Sleep(20 * time.Microsecond)
+					}
 				}
 				n++
 			}
